@@ -50,6 +50,7 @@ func genC19(c *Ctx) {
 	c19DerivedAccessors(c)
 	c19Codecs(c)
 	c19CodecKeys(c)
+	c19ScaleProbes(c)
 	c19Aliases(c)
 	c19BgvRejects(c)
 	c19LogNRange(c)
